@@ -249,3 +249,68 @@ func VC06ScenarioNested() {
 	vAssert("still-disabled", !cpu.IFF1)
 	vAssert("retn-notified-once", vAnd(cnt.retn == 1, cnt.reti == 0))
 }
+
+// Histories of depth 2: any instruction, then a request raised at the
+// boundary after it.  kind: 0 NMI, 1 maskable (mode 1).
+// An NMI is accepted at that boundary, always.  A maskable request is accepted
+// iff IFF1 is set there — at that boundary or, if the instruction was the
+// enabling EI, possibly one instruction later; otherwise it stays pending.
+func VC06After(tbl, op, kind int) {
+	var s States
+	vHavoc(&s, "s")
+	if kind == 1 {
+		s.IM = 1
+	}
+	bus := vNewBus("bus")
+	vPlace(bus, s.PC, tbl, op)
+	cnt := &vCounter{}
+	cpu := &CPU{States: s, Memory: bus, IO: bus, RETNHandler: cnt, RETIHandler: cnt}
+	cpu.Step()
+	s1 := cpu.States
+	if kind == 1 {
+		vAssume(s1.IM == 1) // the instruction itself may have been IM 0 / IM 2
+	}
+	var it *Interrupt
+	if kind == 0 {
+		it = NMIInterrupt()
+	} else {
+		it = IM1Interrupt()
+	}
+	cpu.Interrupt = it
+	// whatever the program holds next: a NOP (executed only if the request is refused / delayed)
+	bus.Poke(s1.PC, 0)
+	bus.Poke(s1.PC+1, 0)
+	sb := bus.Fork("spec")
+	bus.ResetTrace()
+	isEI := tbl == 0 && op == 0xfb
+	cpu.Step()
+	want := s1
+	if kind == 0 {
+		specPush(&want, sb, s1.PC)
+		want.PC, want.IFF2, want.IFF1 = 0x0066, s1.IFF1, false
+		vAssert("nmi-accepted", cpu.Interrupt == nil)
+		vAssert("nmi-state", vEqModR(cpu.States, want))
+		vAssert("nmi-trace", vTraceMultisetEq(bus, sb))
+		return
+	}
+	if vCase(s1.IFF1) {
+		if isEI && cpu.Interrupt != nil {
+			// silicon: one instruction of delay after EI; the NOP ran
+			vAssert("delayed-nop", vAnd(cpu.PC == s1.PC+1, cpu.IFF1))
+			want.PC = s1.PC + 1
+			sb.Get(s1.PC)
+			bus.ResetTrace()
+			sb.ResetTrace()
+			cpu.Step()
+		}
+		specPush(&want, sb, want.PC)
+		want.PC, want.IFF1, want.IFF2 = 0x0038, false, false
+		vAssert("int-accepted", cpu.Interrupt == nil)
+		vAssert("int-state", vEqModR(cpu.States, want))
+		vAssert("int-trace", vTraceMultisetEq(bus, sb))
+	} else {
+		vAssert("int-refused-pending", cpu.Interrupt == it)
+		want.PC = s1.PC + 1
+		vAssert("int-refused-nop-ran", vEqModR(cpu.States, want))
+	}
+}
